@@ -91,19 +91,20 @@ def errEv (consumedAbs : Nat) : Option (Nat × Nat) → List Ev
   | none => []
 
 /-- where a call stops if no error or end of input comes first: never, with
-`OutputFull` before its `n+1`-th step, or there with the look-ahead error `Fam.alt` -/
-inductive Budget | unlimited | full (n : Nat) | alt (n : Nat)
+`OutputFull` before its `n+1`-th step, or with the look-ahead error `Fam.alt` at the
+first step where the family offers one -/
+inductive Budget | unlimited | full (n : Nat) | altAny
 deriving DecidableEq, Repr
 
 def Budget.dec : Budget → Budget
   | .unlimited => .unlimited
   | .full n => .full (n - 1)
-  | .alt n => .alt (n - 1)
+  | .altAny => .altAny
 
 def Budget.isZero : Budget → Bool
   | .unlimited => false
   | .full n => n == 0
-  | .alt n => n == 0
+  | .altAny => false
 
 variable (F : Fam) (k : Sink)
 
@@ -112,15 +113,13 @@ means the call stops with `OutputFull` before its `n+1`-th step -/
 def stopHere (s : F.σ) (b : Nat) (rest : List Nat) : Budget → Option (CallRes F.σ)
   | .unlimited => none
   | .full n => if n = 0 then some ⟨.outputFull, 0, [], s, F.need k s b⟩ else none
-  | .alt n =>
-    if n = 0 then
-      match F.alt s (b :: rest) with
-      | some (m, r) =>
-        match r.err with
-        | some e => some ⟨.malformed e.1 e.2, m, r.out, r.st, 0⟩
-        | none => none
+  | .altAny =>
+    match F.alt s (b :: rest) with
+    | some (m, r) =>
+      match r.err with
+      | some e => some ⟨.malformed e.1 e.2, m, r.out, r.st, 0⟩
       | none => none
-    else none
+    | none => none
 
 def run (last : Bool) : F.σ → List Nat → Budget → CallRes F.σ
   | s, [], budget =>
@@ -202,8 +201,8 @@ decreasing_by
 
 /-- the laws every family satisfies (proved per family) -/
 structure Laws : Prop where
-  /-- a step without error leaves no delayed output -/
-  pend_err : ∀ s b, (F.feed s b).err = none → F.pend (F.feed s b).st = none
+  /-- a step without error (from a flushed state) leaves no delayed output -/
+  pend_err : ∀ s b, F.pend s = none → (F.feed s b).err = none → F.pend (F.feed s b).st = none
   /-- flushing leaves no delayed output -/
   pend_once : ∀ s o s', F.pend s = some (o, s') → F.pend s' = none
   /-- only error steps hand the byte back -/
